@@ -217,6 +217,8 @@ def run_batch(exe, scs, mask, timeout=120, tbb_order=None):
     for i, s in enumerate(scs):
         a = answers.get(i)
         if a is None:
+            if rc == 124:
+                return None, None, i      # OUR time limit: never a finding
             if rc != 0 and i == cur:
                 kind = "race" if "ThreadSanitizer" in err else \
                     "memory" if ("Sanitizer" in err or "runtime error" in err or "GUARD:" in err) else "crash"
@@ -292,8 +294,23 @@ def find(prop, fo, seed, deadline=None, repo=None):
                 i, m, done = run_batch(exe, batch, mask, timeout=max(10, int(deadline - time.time())), tbb_order=tbb_order)
                 n_done += done
                 if m is not None and _accept(prop, m):
-                    hit = (batch[i], m)
-                    break
+                    # confirm in isolation with a generous time limit; a failure that does not repeat is noise
+                    _, m2, _ = run_batch(exe, [batch[i]], mask, timeout=600, tbb_order=tbb_order)
+                    if m2 is not None and _accept(prop, m2):
+                        hit = (batch[i], m2)
+                        break
+                    if m["class"] == "race":
+                        # races are timing dependent: three more attempts before the report is dropped
+                        for _k in range(3):
+                            _, m2, _ = run_batch(exe, [batch[i]], mask, timeout=600, tbb_order=tbb_order)
+                            if m2 is not None and _accept(prop, m2):
+                                hit = (batch[i], m2)
+                                break
+                        if hit:
+                            break
+                    log.setdefault("unconfirmed", []).append(str(m.get("field"))[:120])
+                    pos += i + 1
+                    continue
                 # a failure of the other class is skipped over (reported by the other property)
                 pos += (i + 1) if m is not None else len(batch)
             return job, n_done, hit, pos >= len(scs)
